@@ -18,7 +18,7 @@ func genRound2(c *Ctx) {
 		ok                  bool
 		key, pos, good, bad string
 	}
-	var keyAlias, nilImpl, ctxErr, ctxFresh, mwStops, slotAfterAdd, invalidsZero, mapOverwrite []ob
+	var keyAlias, nilImpl, ctxErr, ctxFresh, mwStops, slotAfterAdd, invalidsZero, mapOverwrite, semRel []ob
 	for _, g := range c.Gen {
 		pfx := "gen:" + g.Name + "/"
 		for _, fn := range c.genFuncs(g) {
@@ -47,6 +47,33 @@ func genRound2(c *Ctx) {
 			}
 			if fn.Parent() != nil {
 				continue
+			}
+			// (i) a worker slot taken for an element goroutine is given back by that goroutine
+			hasSem := false
+			for _, call := range an.CallsIn(fn, func(_ ssa.CallInstruction, ci an.CalleeInfo) bool {
+				return strings.HasSuffix(ci.FullName(), "semaphore.NewWeighted")
+			}) {
+				if call.Parent() == fn {
+					hasSem = true
+				}
+			}
+			if hasSem {
+				for _, gs := range an.GoSites(fn) {
+					if gs.Callee == nil {
+						continue
+					}
+					rel := false
+					for _, f := range an.WithClosures(gs.Callee) {
+						for _, call := range an.CallsIn(f, func(_ ssa.CallInstruction, ci an.CalleeInfo) bool {
+							return strings.HasSuffix(ci.FullName(), "semaphore.Weighted).Release")
+						}) {
+							_ = call
+							rel = true
+						}
+					}
+					semRel = append(semRel, ob{rel, pfx + fn.Name() + "/worker-slot-released", c.ipos(gs.Go), "the goroutine releases its slot",
+						"an element goroutine started after sm.Acquire never calls sm.Release: with worker_limit 1 the second element waits for a slot forever (the list never completes until the request is cancelled)"})
+				}
 			}
 			// (b) interface/union dispatch: a pointer implementor is tested for nil before its object function is called
 			if len(fn.Params) > 0 {
@@ -255,6 +282,9 @@ func genRound2(c *Ctx) {
 	emit("directive-error-stops", "per materialised executor: in the operation/field directive middleware nothing is resolved after an argument error was reported", 1, mwStops)
 	emit("deferred-slot-after-add", "per materialised executor: the slot index of a deferred field (len(Values)-1) is computed after AddField", 10, slotAfterAdd)
 	emit("invalids-compared-with-zero", "per materialised executor: FieldSet.Invalids is only ever compared with 0", 20, invalidsZero)
+	if len(semRel) > 0 {
+		emit("worker-slot-released", "per materialised executor with a worker limit: every element goroutine of a list marshaler calls Release on the semaphore", 1, semRel)
+	}
 	emit("deferred-group-created-once", "per materialised executor: the per-label map of deferred field sets is stored to only on the edge where the lookup of that map missed", 10, mapOverwrite)
 }
 
